@@ -123,8 +123,10 @@ _Static_assert(sizeof(varintBitmapIterator) <= 64,
 varintBitmapIterator varintBitmapCreateIterator(const varintBitmap *vb);
 bool varintBitmapIteratorNext(varintBitmapIterator *it);
 
-/* Bulk operations */
-void varintBitmapAddMany(varintBitmap *vb, const uint16_t *values,
+/* Bulk operations
+ * AddMany returns false if it stopped early because memory ran out (the
+ * values before the failing one were added), true otherwise. */
+bool varintBitmapAddMany(varintBitmap *vb, const uint16_t *values,
                          uint32_t count);
 uint32_t varintBitmapToArray(const varintBitmap *vb, uint16_t *output);
 
@@ -154,8 +156,10 @@ void varintBitmapOptimize(varintBitmap *vb);
 bool varintBitmapIsEmpty(const varintBitmap *vb);
 void varintBitmapClear(varintBitmap *vb);
 
-/* Range operations */
-void varintBitmapAddRange(varintBitmap *vb, uint16_t min, uint16_t max);
-void varintBitmapRemoveRange(varintBitmap *vb, uint16_t min, uint16_t max);
+/* Range operations on [min, max)
+ * Return false if they stopped early because memory ran out (the set is
+ * valid and holds the part of the range processed so far), true otherwise. */
+bool varintBitmapAddRange(varintBitmap *vb, uint16_t min, uint16_t max);
+bool varintBitmapRemoveRange(varintBitmap *vb, uint16_t min, uint16_t max);
 
 __END_DECLS
